@@ -314,6 +314,26 @@ impl PoolMap {
             .find_map(|out_point| self.edges.get_input_ref(&out_point).map(|_| out_point))
     }
 
+    /// Remove the entries (with their descendants) which spend or reference an output of `tx`,
+    /// a transaction that is neither on the chain nor in the pool any more.
+    pub(crate) fn remove_children_of(&mut self, tx: &TransactionView) -> Vec<ConflictEntry> {
+        let mut conflicts = Vec::new();
+        for o in tx.output_pts() {
+            let mut ids: Vec<ProposalShortId> =
+                self.edges.get_input_ref(&o).cloned().into_iter().collect();
+            if let Some(deps) = self.edges.get_deps_ref(&o) {
+                ids.extend(deps.iter().cloned());
+            }
+            for id in ids {
+                for entry in self.remove_entry_and_descendants(&id) {
+                    let reject = Reject::Resolve(OutPointError::Unknown(o.clone()));
+                    conflicts.push((entry, reject));
+                }
+            }
+        }
+        conflicts
+    }
+
     pub(crate) fn resolve_conflict(&mut self, tx: &TransactionView) -> Vec<ConflictEntry> {
         let mut conflicts = Vec::new();
 
